@@ -107,6 +107,16 @@ def run_case(c, rng, sb, order, res, patterns=None):
         c.patterns, c.forms = pats, forms
     else:
         c.patterns, c.forms = list(patterns), ["given"] * len(patterns)
+        # the same carve-out for given pattern lists: with auto-exclusion on, the input directory itself keeps a
+        # non-excluded lower-case .cmake file (otherwise the case is outside C13/C15's quantifier)
+        sp = gitmatch.Spec(c.patterns)
+        if c.auto and not sp.excluded(inp, True) and not any(
+                f.endswith(".cmake") and not sp.excluded(os.path.join(inp, f), False) for f in c.tree.files_of("")):
+            if sp.excluded(os.path.join(inp, "keepme.cmake"), False):
+                c.auto = False
+            else:
+                c.tree.files["keepme.cmake"] = cmake_text("keepme.cmake")
+                c.tree.write(inp)
     # distribute the patterns over the sources
     src = {"cli": [], "sfile": [], "user": []}
     for p in c.patterns:
